@@ -10,6 +10,7 @@ import (
 	"hash/fnv"
 	"os"
 	"path/filepath"
+	"regexp"
 	"sort"
 	"strconv"
 	"strings"
@@ -42,6 +43,19 @@ type listing35 struct {
 	Ext    []attx   `json:"ext"`
 }
 
+func (l *listing35) unesc() {
+	unescAll(l.Kw)
+	for i := range l.Props {
+		l.Props[i].K, l.Props[i].V = unesc(l.Props[i].K), unesc(l.Props[i].V)
+	}
+	for i := range l.Att {
+		l.Att[i].Name, l.Att[i].Desc = unesc(l.Att[i].Name), unesc(l.Att[i].Desc)
+	}
+	for i := range l.Ext {
+		l.Ext[i].Name = unesc(l.Ext[i].Name)
+	}
+}
+
 type step35 struct {
 	Op   string          `json:"op"`
 	Keys []string        `json:"keys"`
@@ -50,6 +64,25 @@ type step35 struct {
 	Res  string          `json:"res"`
 	Chk  bool            `json:"chk"`
 	Exp  json.RawMessage `json:"exp"`
+}
+
+var uRe = regexp.MustCompile(`<U\+([0-9A-F]{4,6})>`)
+
+// unesc replaces the <U+XXXX> notation of the spec by the character itself.
+func unesc(s string) string {
+	return uRe.ReplaceAllStringFunc(s, func(m string) string {
+		n, err := strconv.ParseInt(m[3:len(m)-1], 16, 32)
+		if err != nil {
+			return m
+		}
+		return string(rune(n))
+	})
+}
+
+func unescAll(ss []string) {
+	for i := range ss {
+		ss[i] = unesc(ss[i])
+	}
 }
 
 func (s step35) key() string {
@@ -468,6 +501,7 @@ func (r *runner35) run(c case35) {
 			if err := json.Unmarshal(s.Exp, &l); err != nil {
 				h.Die("expected listing: %v", err)
 			}
+			l.unesc()
 			ev := expectedView(l)
 			switch {
 			case s.Res == "refuse":
@@ -553,6 +587,11 @@ func c35main() {
 		var c case35
 		if err := json.Unmarshal(line, &c); err != nil {
 			return err
+		}
+		for i := range c.Steps {
+			unescAll(c.Steps[i].Keys)
+			unescAll(c.Steps[i].Vals)
+			unescAll(c.Steps[i].Aux)
 		}
 		hh := fnv.New32a()
 		hh.Write([]byte(c.Base))
